@@ -848,8 +848,13 @@ def run(ctx):
                       {"correspondence": "build of harness/overlay against /repo/server"})
         ctx.finish()
     quick = ctx.tier == "quick"
+    from props import c02c
     if ctx.replay:
         rp = json.load(open(ctx.replay))
+        if rp["replay"].get("part") == "c02c":
+            # a replay of the background-session / store-fault part
+            ctx.coverage["background_and_store_faults_part"] = c02c.run_part(ctx, replay=rp["replay"])
+            ctx.finish()
         scns = [Scn.from_replay(rp["replay"], "replay")]
     else:
         scns = [mk(*c, sid="c%d" % i) for i, c in enumerate(CORPUS)]
@@ -940,6 +945,9 @@ def run(ctx):
                           "model and implementation disagree on %d of %d scenarios on this property's projection; first (prefix): op %d %s: %s; no law failure found on %d neighbouring histories"
                           % (len(mism), len(scns), k, sc.ops[k] if k >= 0 else "", json.dumps(d, default=str)[:900], searched), rp)
 
+    # part c: background sessions and store faults (tools/props/c02c.py)
+    part_c = c02c.run_part(ctx) if not ctx.replay else {}
+
     # coverage
     kinds, codes, topics, pops = {}, {}, {}, {}
     feat = dict(noecho=0, obo=0, forged_sender=0, head_entries=0, no_id=0, alt_spelling=0, refused=0, accepted=0, copies=0,
@@ -1004,11 +1012,12 @@ def run(ctx):
                                "subscriber_classes_at_accepted_publishes": pops,
                                "ops_per_scenario_max": max(len(sc.ops) for sc in scns)},
         "impl_wall_s": round(t_impl, 1),
+        "background_and_store_faults_part": part_c,
         "trusted_base": [
             "harness/overlay/server/zz_verif_c02_test.go (+ helpers of zz_verif_topic_test.go): drives the real Hub/Topic/Session code through Session.dispatchRaw; quiescence by goroutine-state snapshot; reads Topic.perUser/sessions/lastID only at quiescence; push receipts read from globals.usersUpdate (driver-owned channel) where sendPush hands them to the user cache",
             "harness/overlay/server/db/memverif: in-memory adapter written from db/mysql/adapter.go (store contract modelled, not verified)",
             "tools/props/c02.py monitors: python restatement of the property on the implementation's trace; 'attached at that moment' and 'effective permissions' are the implementation's own state dump after the previous request",
-            "model scope (coq/Sys/Fanout.v header): no cluster/proxy sessions, no background sessions, no topic pause/unload/deletion, store never fails, no ownership transfer, no invitation of absent users, no mode change of channel readers, no re-subscription after a deleted subscription; a full send buffer is constant during one publish",
+            "model scope (coq/Sys/Fanout.v header; background sessions and store faults are part c: coq/Sys/FanoutBkgC02.v, tools/props/c02c.py, driver TestVerifFanoutC02c): no cluster/proxy sessions, no topic pause/unload/deletion, no ownership transfer, no invitation of absent users, no mode change of channel readers, no re-subscription after a deleted subscription; a full send buffer is constant during one publish",
             "projection compared for C02: per publish the {data} copies per connection (topic as seen, from, id, content, head), the publisher's {ctrl} code and id, the push receipt (id, author, To set, channel address); per request the state the fan-out reads (perUser want/given/deleted/isChan, attached connections with acting user and channel flag, lastID)"],
     })
     ctx.finish()
